@@ -49,6 +49,12 @@ def tree_T5():
                   E(b"\xff", "file", content=b"ff"), E(b"\x80x", "link", target=b"\xff"), E(b"zz", "file", content=b"z")], {"root": 6}
 
 
+def tree_T6():
+    # a directory whose names all begin with '.', except one (skeleton of a home directory); multiply-linked hidden files, a hidden directory holding a link
+    return "T6", [E(b".bashrc", "file", content=b"rc"), E(b".profile", "link", target=b".bashrc"), E(b".zz", "file", content=b"z"),
+                  E(b"README", "file", content=b"readme"), E(b".cfg", "dir", 0o755), E(b".cfg/..x", "link", target=b".zz"), E(b".cfg/.y", "file", content=b"y")], {"root": 5, ".cfg": 2}
+
+
 def option_sets(tier):
     S = [("default", [], None), ("-k", ["-k"], None), ("--no-hard-links", ["-H"], None)]
     if tier == "thorough":
@@ -83,7 +89,7 @@ def main():
     with build.Scratch("C11") as sd:
         tools = build.build_tools(build.variant("envwrap"), os.path.join(sd, "bin"), tools=["gensquashfs"])
         T.update(tools)
-        trees = [tree_T1(), tree_T4(), tree_T5(), tree_T2()] + ([tree_T3()] if not cr.quick else [])
+        trees = [tree_T1(), tree_T4(), tree_T6(), tree_T5(), tree_T2()] + ([tree_T3()] if not cr.quick else [])
         if cr.replay:
             case = json.load(open(os.path.join(cr.replay, "case.json")))
             tr = {t[0]: t for t in trees + [tree_T3()]}[case["tree"]]
